@@ -48,6 +48,9 @@ type Chunker struct {
 	Zero        bool // occasionally return (0, nil), never twice in a row
 	EOFWithData bool // deliver the final chunk together with io.EOF
 	ErrWithData bool // deliver the final chunk before a fault together with the fault's error
+	// ZeroRun: every 40th productive read is preceded by that many (0, nil) reads in a row (a
+	// source that is polled while it has nothing to deliver).
+	ZeroRun int
 }
 
 // ErrInjected is the non-EOF error the fault injector returns.
@@ -68,6 +71,7 @@ type Reader struct {
 	PostEOF  int // Read calls after the end was signalled
 	MaxAsk   int // largest len(p) seen
 	lastZero bool
+	zeroLeft, productive int
 }
 
 // NewReader serves all of data with the given chunker.
@@ -98,6 +102,18 @@ func (r *Reader) Read(p []byte) (int, error) {
 			return 0, ErrInjected
 		}
 		return 0, io.EOF
+	}
+	if r.Ch.ZeroRun > 0 {
+		if r.zeroLeft > 0 {
+			r.zeroLeft--
+			return 0, nil
+		}
+		r.productive++
+		if r.productive%40 == 3 {
+			r.zeroLeft = r.Ch.ZeroRun
+			r.productive++
+			return 0, nil
+		}
 	}
 	if r.Ch.Zero && !r.lastZero && r.Ch.R != nil && r.Ch.R.Chance(1, 6) {
 		r.lastZero = true
@@ -146,7 +162,7 @@ func Chunkers(rng *Rand) []Chunker {
 		{Kind: "fixed", Size: 4095}, {Kind: "fixed", Size: 4096}, {Kind: "fixed", Size: 4097}, {Kind: "fixed", Size: 5000},
 		{Kind: "rand", Size: 9, R: rng}, {Kind: "rand", Size: 700, R: rng},
 		{Kind: "greedy", EOFWithData: true},
-		{Kind: "rand", Size: 50, R: rng, Zero: true, Yield: true},
+		{Kind: "rand", Size: 50, R: rng, Zero: true, Yield: true, ZeroRun: 150},
 	}
 	return cs
 }
@@ -167,6 +183,9 @@ func (c Chunker) String() string {
 	}
 	if c.ErrWithData {
 		s += "+errdata"
+	}
+	if c.ZeroRun > 0 {
+		s += fmt.Sprintf("+zerorun%d", c.ZeroRun)
 	}
 	return s
 }
